@@ -315,7 +315,12 @@ impl<'a> Gen<'a> {
             // selfdestruct and its guards
             47 => format!("selfdestruct({})", self.pick(&["payable(msg.sender)", "payable(owner)", "address(msg.sender)", "msg.sender", "to"])),
             48 => format!("suicide({})", a),
-            49 => format!("require({} == {})", self.pick(&["msg.sender", "owner"]), self.pick(&["msg.sender", "owner"])),
+            49 => format!(
+                "require({} {} {})",
+                self.pick(&["msg.sender", "owner", "msg.value", "msg.sig", "tx.origin", "ctx.sender", "msg.data.length"]),
+                self.pick(&["==", "!=", ">="]),
+                self.pick(&["msg.sender", "owner", "fee", "bytes4(0)", "msg.value"])
+            ),
             50 => format!("{}(msg.sender)", self.pick(&["check", "payable", "address", "_auth", "uint160"])),
             51 => format!("require(msg.sender != {}, {})", a, self.string_lit()),
             52 => "msg.sender".into(),
@@ -1007,9 +1012,12 @@ pub fn scenario_file(seed: u64) -> String {
     let twin_kill = r.chance(1, 5);
     let kill_variant = |r: &mut Rng, owner: &str| -> String {
         let guard = ["", "onlyOwner ", "nonReentrant ", "nonReentrant onlyOwner "][r.below(4)];
-        let pre = match r.below(4) {
+        let pre = match r.below(7) {
             0 => format!("require(msg.sender == {});", owner),
             1 => format!("if (msg.sender != {}) revert();", owner),
+            2 => "require(msg.value == 1 ether);".to_string(),
+            3 => "require(msg.sig != bytes4(0));".to_string(),
+            4 => format!("address payable to = payable({}); require(msg.sender == {});", owner, owner),
             _ => String::new(),
         };
         format!("  address payable {};\n  function kill() {} {}{{ {} selfdestruct({}); }}\n", owner, ["external", "public"][r.below(2)], guard, pre, owner)
@@ -1040,7 +1048,13 @@ pub fn scenario_file(seed: u64) -> String {
         body.push_str(&format!("  function chk(uint256 a) public pure {{ require(a > 1, {}); require(a > 2 && a < 9, {}); }}\n", msg, msg));
     }
     let kind = ["contract", "abstract contract", "contract", "library"][r.below(4)];
-    let mut out = format!("{}\n{}{} Main {{\n{}{}{}}}\n", pragma, free_fns, kind, using_line, decls, body);
+    // the `using` directive at file level instead of inside the contract, every fourth time it is present
+    let mut file_level_using = String::new();
+    if !using_line.is_empty() && r.chance(1, 4) {
+        file_level_using = using_line.trim_start().to_string();
+        using_line = String::new();
+    }
+    let mut out = format!("{}\n{}{}{} Main {{\n{}{}{}}}\n", pragma, file_level_using, free_fns, kind, using_line, decls, body);
     // a second contract of the file that writes (or only reads) variables of the first: derived or unrelated
     if twin_kill || r.chance(1, 2) {
         let derived = !twin_kill && r.chance(1, 2);
